@@ -580,7 +580,12 @@ theorem matches_evalStep (hA : Agree cfg I R) (hc : cfg.compiled = false) (e : E
     | none =>
       by_cases hb : id ∈ baseKeys
       · simp [inData, dataGet, hl, hb, refName, hc, hr]
-      · simp [inData, hl, hb, refName, hc, M.bind, M.log, M.lift]
+      · have hnr : nameRefused id = hasPrefix "__" id := by
+          have h1 : Gen.nameFallbackRefusesDunder = true := by decide
+          have h2 : Gen.nameRefusedPrefix = "__" := by decide
+          simp [nameRefused, h1, h2]
+        by_cases hd : hasPrefix "__" id = true <;>
+          simp [inData, hl, hb, refName, hc, M.bind, M.log, M.lift, hnr, hd]
   | attr _ v a hv =>
     have hk : Gen.evalNodeKinds.contains "Attribute" = true := kinds_handled "Attribute" (by simp)
     have hp : Gen.attrRefusedPrefix = "__" := by decide
